@@ -23,6 +23,13 @@ import Driver.Util
 namespace Driver.Search
 open Wtf Wtf.Search Wtf.Index
 
+/-- the model's NLP layer for one normalised query, tabulated per document (pure memoisation of `Boosts.nlpOut`) -/
+structure NlpCache where
+  nq : Bytes
+  out : NlpOut Float
+  ib : List Float
+  cb : List Float
+
 structure DS where
   host : Bytes := []
   ri : RuneInfo := {}
@@ -40,9 +47,25 @@ structure DS where
   lg : List (Nat × Float) := []    -- math.Log(N/dc) table for the TF-IDF model
   tfIdx : Option (Tfidf.Index Float) := none   -- model TF-IDF index, built once per case
   nlpDb : Option (List Cmd) := none            -- database the NLP factors are computed for, if not `db` (domain c03)
+  cache : Option NlpCache := none              -- memo of the model's NLP layer for `nq` (reset whenever db / ri / nq change)
 
 /-- the commands the per-document NLP factors refer to -/
 def DS.nlpCmds (d : DS) : List Cmd := d.nlpDb.getD d.db.toList
+
+/-- `Boosts.nlpOut` for the current `nq`, with both per-document factors evaluated once for every document -/
+def mkCache (d : DS) : NlpCache :=
+  let n : NlpOut Float := Boosts.nlpOut d.ri d.nlpCmds d.nq
+  let k := d.nlpCmds.length
+  let ib := ((List.range k).map n.intentBoost).toArray
+  let cb := ((List.range k).map n.cascade).toArray
+  { nq := d.nq, ib := ib.toList, cb := cb.toList,
+    -- outside the database both factors are `one`, as in `Boosts.nlpOutWith`
+    out := { n with intentBoost := fun i => ib.getD i 1.0, cascade := fun i => cb.getD i 1.0 } }
+
+def withCache (d : DS) : DS × NlpCache :=
+  match d.cache with
+  | some c => if c.nq == d.nq then (d, c) else let c := mkCache d; ({ d with cache := some c }, c)
+  | none => let c := mkCache d; ({ d with cache := some c }, c)
 
 def floatList? (s : String) : Option (List Float) :=
   if s == "-" then some [] else (s.splitOn ",").mapM floatOf?
@@ -63,7 +86,9 @@ def tuning (d : DS) : Tuning Float :=
     -- the NLP layer is the MODEL's (Model/Boosts.lean over Model/Nlp.lean): analysis of the normalised query and both
     -- per-document factors.  The oracle lines `pq` / `ib` / `cb` (what the real code computed) are no longer inputs;
     -- they are compared with the model's values when they are read (`oracleCheck`).
-    nlp := fun nq => Boosts.nlpOut d.ri d.nlpCmds nq
+    nlp := fun nq => match d.cache with
+      | some c => if c.nq == nq then c.out else Boosts.nlpOut d.ri d.nlpCmds nq
+      | none => Boosts.nlpOut d.ri d.nlpCmds nq
     -- the re-ranker is the MODEL's TF-IDF (Model/Tfidf.lean) whenever the real database has a searcher;
     -- the oracle `tf` line only says whether one exists (and is compared separately by the `tfidf` op)
     tfidf := match d.tf, d.tfIdx with
@@ -103,14 +128,14 @@ def ensureIdx (d : DS) : DS :=
 def step (d : DS) (l : String) : DS × String :=
   match words l with
   | ["host", h] => match Bytes.ofHex h with
-    | some b => ({ d with host := b }, "ok")
+    | some b => ({ d with host := b, cache := none }, "ok")
     | none => (d, "bad-op")
   | ["ri", cp, lo, fr, fl] =>
     match natOf? cp, natOf? lo, natOf? fr, natOf? fl with
     | some cp, some lo, some fr, some fl =>
       let f : RuneFacts := { cp := cp, lower := lo, foldRep := fr, isLower := fl % 2 == 1, isUpper := (fl / 2) % 2 == 1,
                              isSpace := (fl / 4) % 2 == 1, isLetNum := (fl / 8) % 2 == 1 }
-      ({ d with ri := { table := f :: d.ri.table } }, "ok")
+      ({ d with ri := { table := f :: d.ri.table }, cache := none }, "ok")
     | _, _, _, _ => (d, "bad-op")
   | ["cmd", c, de, kw, tg, ni, pl, pi, cl, dl, kl, tl] =>
     match Bytes.ofHex c, Bytes.ofHex de, bytesList? kw, bytesList? tg, Bytes.ofHex ni, bytesList? pl,
@@ -118,34 +143,33 @@ def step (d : DS) (l : String) : DS × String :=
     | some c, some de, some kw, some tg, some ni, some pl, some cl, some dl, some kl, some tl =>
       ({ d with db := d.db.push { command := c, description := de, keywords := kw, tags := tg, niche := ni, platform := pl,
                                    pipeline := boolOf pi, commandLower := cl, descriptionLower := dl,
-                                   keywordsLower := kl, tagsLower := tl } }, "ok")
+                                   keywordsLower := kl, tagsLower := tl }, cache := none }, "ok")
     | _, _, _, _, _, _, _, _, _, _ => (d, "bad-op")
   | ["idf", df, v] =>
     match natOf? df, floatOf? v with
     | some df, some v => ({ d with idf := (df, v) :: d.idf }, "ok")
     | _, _ => (d, "bad-op")
   | ["nq", h] => match Bytes.ofHex h with
-    | some b => ({ d with nq := b }, "ok")
+    | some b => ({ d with nq := b, cache := none }, "ok")
     | none => (d, "bad-op")
   | ["pq", a, t, k, e] =>
     match bytesList? a, bytesList? t, bytesList? k, bytesList? e with
     | some a, some t, some k, some e =>
-      let n : NlpOut Float := Boosts.nlpOut d.ri d.nlpCmds d.nq
+      let (d, c) := withCache d
+      let n := c.out
       ({ d with actions := a, targets := t, keywords := k, enhanced := e },
        oracleCheck "pq" (n.actions == a && n.targets == t && n.keywords == k && n.enhanced == e)
          s!"{fmtBytesList n.actions} {fmtBytesList n.targets} {fmtBytesList n.keywords} {fmtBytesList n.enhanced}")
     | _, _, _, _ => (d, "bad-op")
   | ["ib", v] => match floatList? v with
     | some l =>
-      let n : NlpOut Float := Boosts.nlpOut d.ri d.nlpCmds d.nq
-      let m := (List.range d.nlpCmds.length).map n.intentBoost
-      ({ d with ib := l.toArray }, oracleCheck "ib" (sameBits m l) (fmtFloatList m))
+      let (d, c) := withCache d
+      ({ d with ib := l.toArray }, oracleCheck "ib" (sameBits c.ib l) (fmtFloatList c.ib))
     | none => (d, "bad-op")
   | ["cb", v] => match floatList? v with
     | some l =>
-      let n : NlpOut Float := Boosts.nlpOut d.ri d.nlpCmds d.nq
-      let m := (List.range d.nlpCmds.length).map n.cascade
-      ({ d with cb := l.toArray }, oracleCheck "cb" (sameBits m l) (fmtFloatList m))
+      let (d, c) := withCache d
+      ({ d with cb := l.toArray }, oracleCheck "cb" (sameBits c.cb l) (fmtFloatList c.cb))
     | none => (d, "bad-op")
   | ["tf", v] =>
     if v == "none" then ({ d with tf := none }, "ok") else
@@ -162,7 +186,7 @@ def step (d : DS) (l : String) : DS × String :=
       let o : Opts Float := { limit := lim, boosts := bo, pipelineOnly := boolOf po, pipelineBoost := pb, useFuzzy := boolOf uf,
                               fuzzyThreshold := thr, useNLP := boolOf un, topTermsCap := cap, allPlatforms := boolOf ap,
                               platforms := pls, noCross := boolOf nc }
-      let d := if o.useNLP then ensureIdx d else d
+      let d := if o.useNLP then (withCache (ensureIdx d)).1 else d
       (d, fmtResults (search (tuning d) d.db.toList q o))
     | _, _, _, _, _, _, _ => (d, "bad-op")
   | ["lg", dc, v] =>
